@@ -34,6 +34,7 @@ class World:
         self.conn = self.rig.make_connection("w1", args_bucket=args_bucket, result_bucket=result_bucket, bucket_kind=bucket_kind)
         self.inflight = 0
         self.seen = {}
+        self.iteration = {}
         self.loop_cap = 12
         self.max_inflight = 0
         self.actor_starts = 0
@@ -69,6 +70,11 @@ class World:
         async def body(script: dict, m: MessageDependency):
             attempt = m.parameters.retries.already_tried
             id_ = m.key.id_
+            if attempt == 0:
+                world.iteration[id_] = world.iteration.get(id_, 0) + 1
+            if "by_iter" in script:
+                its = script["by_iter"]
+                script = its[min(world.iteration.get(id_, 1) - 1, len(its) - 1)]
             steps = script.get("by_attempt") or [script]
             st = steps[min(attempt, len(steps) - 1)]
             nth = world.seen[(id_, attempt)] = world.seen.get((id_, attempt), 0) + 1
@@ -80,7 +86,7 @@ class World:
             world.inflight += 1
             world.actor_starts += 1
             world.max_inflight = max(world.max_inflight, world.inflight)
-            log.add(k="actor_start", id=id_, attempt=attempt, actor=name, queue=m.key.queue, topic=m.key.topic,
+            log.add(k="actor_start", id=id_, attempt=attempt, actor=name, queue=m.key.queue, topic=m.key.topic, iteration=world.iteration.get(id_, 0),
                     inflight=world.inflight, params_ts=m.parameters.timestamp.isoformat(),
                     next=m.parameters.delay.next_execution_time.isoformat() if m.parameters.delay.next_execution_time else None)
             try:
